@@ -1,1 +1,2028 @@
-//! (stub)
+//! G-alnhdr / G-aln: plain, serialisable models of SAM headers and alignment records, conversions
+//! to and from the noodles types, proptest strategies over the SAM data model, and canonical
+//! comparison / rendering helpers.
+//!
+//! This module is shared: it contains no property-specific logic. The usual flow is
+//!
+//! ```ignore
+//! let doc: AlnDoc = ...;                       // from `document(..)`
+//! let header = doc.header.to_noodles()?;       // sam::Header
+//! let rec = doc.records[0].to_noodles()?;      // sam::alignment::RecordBuf
+//! let back = AlnRecord::from_noodles(&rec2);   // model of what was read
+//! assert_eq!(back, doc.records[0].normalized(Norm::BAM));
+//! ```
+//!
+//! Validity ("valid ⇒ accepted by the writer") is kept strictly inside what the writers validate
+//! (`noodles-sam/src/io/writer/record/*`, `noodles-bam/src/record/codec/encoder/*`) and inside the
+//! SAM specification's grammar:
+//!
+//! * name: missing or 1..=254 bytes of `[!-?A-~]`, never `*`;
+//! * flags: the 12 defined bits;
+//! * reference / mate reference id: missing or `< n_ref`;
+//! * positions: missing or 1..=2^31−1;
+//! * MAPQ: missing (255) or 0..=254;
+//! * CIGAR: 0..k ops over all nine kinds, op length ≤ 2^28−1;
+//! * sequence: missing, or (when the CIGAR consumes ≥1 read base) exactly the CIGAR's read length;
+//!   BAM target: any byte (the BAM alphabet folding is the stated normal form); SAM target:
+//!   `[A-Za-z=.]`;
+//! * qualities: missing, or one score 0..=93 per base; for SAM targets never the single score 9 on a
+//!   one-base read (it renders as `*`, which SAM itself defines as "missing": the format cannot
+//!   represent that value, so it is outside the domain of a text round trip);
+//! * aux: unique tags `[A-Za-z][A-Za-z0-9]` except the BAM-reserved `CG`; `A` in `[!-~]`, `Z` in
+//!   `[ -~]*`, `H` in `([0-9A-F]{2})*`, every integer width at its boundaries, `f` any bit pattern for
+//!   BAM and finite for SAM, `B` arrays of every subtype with 0..k elements.
+
+use crate::engine::{Tier, pick_idx};
+use crate::r#gen::payload::XorShift;
+use noodles_core::Position;
+use noodles_sam as sam;
+use proptest::prelude::*;
+use sam::alignment::RecordBuf;
+use sam::alignment::record::cigar::{Op, op::Kind};
+use sam::alignment::record::data::field::Tag as NTag;
+use sam::alignment::record::{Flags, MappingQuality};
+use sam::alignment::record_buf::data::field::{Value, value::Array};
+use serde::{Deserialize, Deserializer, Serialize, Serializer};
+use std::fmt;
+
+// ---------------------------------------------------------------------------------------------
+// byte strings and tags that stay readable in replay files
+// ---------------------------------------------------------------------------------------------
+
+/// A byte string, serialised as a Latin-1 string (lossless; ASCII stays readable in replay files).
+#[derive(Clone, PartialEq, Eq, Hash, PartialOrd, Ord, Default)]
+pub struct B(pub Vec<u8>);
+
+impl B {
+    pub fn new(b: impl AsRef<[u8]>) -> B {
+        B(b.as_ref().to_vec())
+    }
+    pub fn as_bytes(&self) -> &[u8] {
+        &self.0
+    }
+    pub fn len(&self) -> usize {
+        self.0.len()
+    }
+    pub fn is_empty(&self) -> bool {
+        self.0.is_empty()
+    }
+}
+
+impl fmt::Debug for B {
+    fn fmt(&self, f: &mut fmt::Formatter<'_>) -> fmt::Result {
+        write!(f, "b\"{}\"", self.0.escape_ascii())
+    }
+}
+
+impl Serialize for B {
+    fn serialize<S: Serializer>(&self, s: S) -> Result<S::Ok, S::Error> {
+        let t: String = self.0.iter().map(|&b| b as char).collect();
+        s.serialize_str(&t)
+    }
+}
+
+impl<'de> Deserialize<'de> for B {
+    fn deserialize<D: Deserializer<'de>>(d: D) -> Result<B, D::Error> {
+        let t = String::deserialize(d)?;
+        let mut v = Vec::with_capacity(t.len());
+        for c in t.chars() {
+            let n = c as u32;
+            if n > 255 {
+                return Err(serde::de::Error::custom("byte string holds a code point above U+00FF"));
+            }
+            v.push(n as u8);
+        }
+        Ok(B(v))
+    }
+}
+
+/// A two-byte tag (header field tag or aux tag), serialised as a two-character string.
+#[derive(Clone, Copy, PartialEq, Eq, Hash, PartialOrd, Ord)]
+pub struct Tag(pub [u8; 2]);
+
+impl fmt::Debug for Tag {
+    fn fmt(&self, f: &mut fmt::Formatter<'_>) -> fmt::Result {
+        write!(f, "{}", self.0.escape_ascii())
+    }
+}
+
+impl Serialize for Tag {
+    fn serialize<S: Serializer>(&self, s: S) -> Result<S::Ok, S::Error> {
+        B(self.0.to_vec()).serialize(s)
+    }
+}
+
+impl<'de> Deserialize<'de> for Tag {
+    fn deserialize<D: Deserializer<'de>>(d: D) -> Result<Tag, D::Error> {
+        let b = B::deserialize(d)?;
+        if b.0.len() != 2 {
+            return Err(serde::de::Error::custom("tag is not two bytes"));
+        }
+        Ok(Tag([b.0[0], b.0[1]]))
+    }
+}
+
+pub const fn tag(s: &[u8; 2]) -> Tag {
+    Tag(*s)
+}
+
+// ---------------------------------------------------------------------------------------------
+// header model
+// ---------------------------------------------------------------------------------------------
+
+pub type Fields = Vec<(Tag, B)>;
+
+#[derive(Clone, Debug, PartialEq, Eq, Serialize, Deserialize)]
+pub struct HdLine {
+    pub major: u32,
+    pub minor: u32,
+    /// every field except `VN`, in order
+    pub other: Fields,
+}
+
+#[derive(Clone, Debug, PartialEq, Eq, Serialize, Deserialize)]
+pub struct SqLine {
+    pub name: B,
+    pub len: u64,
+    /// every field except `SN`/`LN`, in order
+    pub other: Fields,
+}
+
+/// `@RG` and `@PG` lines: an id plus ordered other fields.
+#[derive(Clone, Debug, PartialEq, Eq, Serialize, Deserialize)]
+pub struct IdLine {
+    pub id: B,
+    pub other: Fields,
+}
+
+#[derive(Clone, Debug, PartialEq, Eq, Serialize, Deserialize, Default)]
+pub struct AlnHeader {
+    pub hd: Option<HdLine>,
+    pub refs: Vec<SqLine>,
+    pub read_groups: Vec<IdLine>,
+    pub programs: Vec<IdLine>,
+    pub comments: Vec<B>,
+}
+
+/// What a record generator needs to know about the header.
+#[derive(Clone, Debug, Default)]
+pub struct RefCtx {
+    pub ref_lens: Vec<u64>,
+}
+
+impl RefCtx {
+    pub fn n_ref(&self) -> usize {
+        self.ref_lens.len()
+    }
+}
+
+fn other_fields<S>(fields: &Fields, what: &str) -> Result<indexmap::IndexMap<sam::header::record::value::map::tag::Other<S>, bstr::BString>, String>
+where
+    S: sam::header::record::value::map::tag::Standard,
+{
+    let mut m = indexmap::IndexMap::new();
+    for (t, v) in fields {
+        let key = sam::header::record::value::map::tag::Other::<S>::try_from(t.0).map_err(|_| format!("{what}: tag {t:?} is a standard tag of this line type"))?;
+        if m.insert(key, bstr::BString::from(v.0.clone())).is_some() {
+            return Err(format!("{what}: duplicate tag {t:?}"));
+        }
+    }
+    Ok(m)
+}
+
+impl AlnHeader {
+    pub fn n_ref(&self) -> usize {
+        self.refs.len()
+    }
+
+    pub fn ref_ctx(&self) -> RefCtx {
+        RefCtx { ref_lens: self.refs.iter().map(|r| r.len).collect() }
+    }
+
+    pub fn is_empty(&self) -> bool {
+        self.hd.is_none() && self.refs.is_empty() && self.read_groups.is_empty() && self.programs.is_empty() && self.comments.is_empty()
+    }
+
+    /// Build the noodles header. Fails (with a description) only for models outside the domain
+    /// (duplicate names/ids/tags, a standard tag among the other fields, a zero length).
+    pub fn to_noodles(&self) -> Result<sam::Header, String> {
+        use sam::header::record::value::{
+            Map,
+            map::{self, header::Version},
+        };
+        let mut h = sam::Header::default();
+        if let Some(hd) = &self.hd {
+            let mut m = Map::<map::Header>::new(Version::new(hd.major, hd.minor));
+            *m.other_fields_mut() = other_fields(&hd.other, "@HD")?;
+            *h.header_mut() = Some(m);
+        }
+        for sq in &self.refs {
+            let len = std::num::NonZero::new(sq.len as usize).ok_or_else(|| format!("@SQ {:?}: zero length", sq.name))?;
+            let mut m = Map::<map::ReferenceSequence>::new(len);
+            *m.other_fields_mut() = other_fields(&sq.other, "@SQ")?;
+            if h.reference_sequences_mut().insert(bstr::BString::from(sq.name.0.clone()), m).is_some() {
+                return Err(format!("duplicate reference sequence name {:?}", sq.name));
+            }
+        }
+        for rg in &self.read_groups {
+            let mut m = Map::<map::ReadGroup>::default();
+            *m.other_fields_mut() = other_fields(&rg.other, "@RG")?;
+            if h.read_groups_mut().insert(bstr::BString::from(rg.id.0.clone()), m).is_some() {
+                return Err(format!("duplicate read group id {:?}", rg.id));
+            }
+        }
+        for pg in &self.programs {
+            let mut m = Map::<map::Program>::default();
+            *m.other_fields_mut() = other_fields(&pg.other, "@PG")?;
+            if h.programs_mut().as_mut().insert(bstr::BString::from(pg.id.0.clone()), m).is_some() {
+                return Err(format!("duplicate program id {:?}", pg.id));
+            }
+        }
+        for c in &self.comments {
+            h.comments_mut().push(bstr::BString::from(c.0.clone()));
+        }
+        Ok(h)
+    }
+
+    /// Model of a noodles header (field order preserved — `IndexMap` equality ignores order, this
+    /// model does not).
+    pub fn from_noodles(h: &sam::Header) -> AlnHeader {
+        fn fields<S>(m: &indexmap::IndexMap<sam::header::record::value::map::tag::Other<S>, bstr::BString>) -> Fields {
+            m.iter().map(|(k, v)| (Tag(*AsRef::<[u8; 2]>::as_ref(k)), B(v.to_vec()))).collect()
+        }
+        AlnHeader {
+            hd: h.header().map(|m| HdLine { major: m.version().major(), minor: m.version().minor(), other: fields(m.other_fields()) }),
+            refs: h.reference_sequences().iter().map(|(n, m)| SqLine { name: B(n.to_vec()), len: usize::from(m.length()) as u64, other: fields(m.other_fields()) }).collect(),
+            read_groups: h.read_groups().iter().map(|(n, m)| IdLine { id: B(n.to_vec()), other: fields(m.other_fields()) }).collect(),
+            programs: h.programs().as_ref().iter().map(|(n, m)| IdLine { id: B(n.to_vec()), other: fields(m.other_fields()) }).collect(),
+            comments: h.comments().iter().map(|c| B(c.to_vec())).collect(),
+        }
+    }
+
+    /// SAM text of the header in the order `@HD`, `@SQ*`, `@RG*`, `@PG*`, `@CO*`, with the
+    /// identifying fields (`VN`; `SN`,`LN`; `ID`) first on their lines — rendered by the harness
+    /// from the grammar in SAMv1 §1.3, not by noodles.
+    pub fn to_text(&self) -> Vec<u8> {
+        let mut lines = Vec::new();
+        if let Some(l) = self.hd_line() {
+            lines.push(l);
+        }
+        lines.extend(self.sq_lines());
+        lines.extend(self.rg_lines());
+        lines.extend(self.pg_lines());
+        lines.extend(self.co_lines());
+        lines.concat()
+    }
+
+    fn push_fields(line: &mut Vec<u8>, fields: &Fields) {
+        for (t, v) in fields {
+            line.push(b'\t');
+            line.extend_from_slice(&t.0);
+            line.push(b':');
+            line.extend_from_slice(&v.0);
+        }
+    }
+
+    pub fn hd_line(&self) -> Option<Vec<u8>> {
+        self.hd.as_ref().map(|hd| {
+            let mut l = format!("@HD\tVN:{}.{}", hd.major, hd.minor).into_bytes();
+            Self::push_fields(&mut l, &hd.other);
+            l.push(b'\n');
+            l
+        })
+    }
+
+    pub fn sq_lines(&self) -> Vec<Vec<u8>> {
+        self.refs
+            .iter()
+            .map(|sq| {
+                let mut l = b"@SQ\tSN:".to_vec();
+                l.extend_from_slice(&sq.name.0);
+                l.extend_from_slice(format!("\tLN:{}", sq.len).as_bytes());
+                Self::push_fields(&mut l, &sq.other);
+                l.push(b'\n');
+                l
+            })
+            .collect()
+    }
+
+    fn id_lines(kind: &[u8], lines: &[IdLine]) -> Vec<Vec<u8>> {
+        lines
+            .iter()
+            .map(|x| {
+                let mut l = b"@".to_vec();
+                l.extend_from_slice(kind);
+                l.extend_from_slice(b"\tID:");
+                l.extend_from_slice(&x.id.0);
+                Self::push_fields(&mut l, &x.other);
+                l.push(b'\n');
+                l
+            })
+            .collect()
+    }
+
+    pub fn rg_lines(&self) -> Vec<Vec<u8>> {
+        Self::id_lines(b"RG", &self.read_groups)
+    }
+
+    pub fn pg_lines(&self) -> Vec<Vec<u8>> {
+        Self::id_lines(b"PG", &self.programs)
+    }
+
+    pub fn co_lines(&self) -> Vec<Vec<u8>> {
+        self.comments
+            .iter()
+            .map(|c| {
+                let mut l = b"@CO\t".to_vec();
+                l.extend_from_slice(&c.0);
+                l.push(b'\n');
+                l
+            })
+            .collect()
+    }
+
+    /// Field-wise differences between two header models (empty = equal). Each entry names the
+    /// part that differs (`hd`, `refs`, `read_groups`, `programs`, `comments`).
+    pub fn diff(&self, other: &AlnHeader) -> Vec<(&'static str, String)> {
+        let mut d = Vec::new();
+        macro_rules! cmp {
+            ($f:ident) => {
+                if self.$f != other.$f {
+                    d.push((stringify!($f), format!("{:?} vs {:?}", self.$f, other.$f)));
+                }
+            };
+        }
+        cmp!(hd);
+        cmp!(refs);
+        cmp!(read_groups);
+        cmp!(programs);
+        cmp!(comments);
+        d
+    }
+}
+
+// ---------------------------------------------------------------------------------------------
+// record model
+// ---------------------------------------------------------------------------------------------
+
+/// CIGAR operation kinds in BAM code order.
+pub const KIND_CHARS: &[u8; 9] = b"MIDNSHP=X";
+
+pub fn kind_of(code: u8) -> Kind {
+    match code {
+        0 => Kind::Match,
+        1 => Kind::Insertion,
+        2 => Kind::Deletion,
+        3 => Kind::Skip,
+        4 => Kind::SoftClip,
+        5 => Kind::HardClip,
+        6 => Kind::Pad,
+        7 => Kind::SequenceMatch,
+        _ => Kind::SequenceMismatch,
+    }
+}
+
+pub fn code_of(kind: Kind) -> u8 {
+    match kind {
+        Kind::Match => 0,
+        Kind::Insertion => 1,
+        Kind::Deletion => 2,
+        Kind::Skip => 3,
+        Kind::SoftClip => 4,
+        Kind::HardClip => 5,
+        Kind::Pad => 6,
+        Kind::SequenceMatch => 7,
+        Kind::SequenceMismatch => 8,
+    }
+}
+
+/// `M I S = X` consume read bases.
+pub fn consumes_read(code: u8) -> bool {
+    matches!(code, 0 | 1 | 4 | 7 | 8)
+}
+
+/// `M D N = X` consume reference bases.
+pub fn consumes_ref(code: u8) -> bool {
+    matches!(code, 0 | 2 | 3 | 7 | 8)
+}
+
+/// A CIGAR: explicit, or a compact description of a very long one (expanded deterministically).
+#[derive(Clone, Debug, PartialEq, Eq, Serialize, Deserialize)]
+pub enum CigarSpec {
+    /// `(kind code 0..=8 in "MIDNSHP=X" order, length)`
+    Ops(Vec<(u8, u64)>),
+    /// `n_ops` operations with pseudo-random kinds (all nine occur) and lengths 1..=3
+    Huge { n_ops: u32, seed: u32 },
+}
+
+impl CigarSpec {
+    pub fn ops(&self) -> Vec<(u8, u64)> {
+        match self {
+            CigarSpec::Ops(v) => v.clone(),
+            CigarSpec::Huge { n_ops, seed } => {
+                let mut r = XorShift::new(*seed as u64 + 0x5eed);
+                let mut v = Vec::with_capacity(*n_ops as usize);
+                let mut prev = 9u8;
+                for _ in 0..*n_ops {
+                    let x = r.next();
+                    let mut k = (x % 9) as u8;
+                    if k == prev {
+                        k = (k + 1) % 9;
+                    }
+                    prev = k;
+                    v.push((k, 1 + (x >> 8) % 3));
+                }
+                v
+            }
+        }
+    }
+    pub fn n_ops(&self) -> usize {
+        match self {
+            CigarSpec::Ops(v) => v.len(),
+            CigarSpec::Huge { n_ops, .. } => *n_ops as usize,
+        }
+    }
+}
+
+/// The 16-letter BAM base alphabet in code order.
+pub const BAM_BASES: &[u8; 16] = b"=ACMGRSVTWYHKDBN";
+
+/// Bases: explicit, or derived from the CIGAR's read length (for very long reads).
+#[derive(Clone, Debug, PartialEq, Eq, Serialize, Deserialize)]
+pub enum SeqSpec {
+    Bases(B),
+    /// as many bases as the CIGAR consumes, pseudo-random over the upper-case BAM alphabet
+    Auto { seed: u32 },
+}
+
+/// Quality scores (raw Phred values, not offset by 33): explicit, or one per base.
+#[derive(Clone, Debug, PartialEq, Eq, Serialize, Deserialize)]
+pub enum QualSpec {
+    Scores(Vec<u8>),
+    /// one pseudo-random score 10..=93 per base
+    Auto { seed: u32 },
+}
+
+/// A typed auxiliary value. Floats are held as bit patterns so that equality is bit equality.
+#[derive(Clone, Debug, PartialEq, Eq, Serialize, Deserialize)]
+pub enum AuxValue {
+    Char(u8),
+    I8(i8),
+    U8(u8),
+    I16(i16),
+    U16(u16),
+    I32(i32),
+    U32(u32),
+    /// width-less integer: only produced by `Norm::numeric_ints`
+    Int(i64),
+    F32(u32),
+    Str(B),
+    Hex(B),
+    ArrI8(Vec<i8>),
+    ArrU8(Vec<u8>),
+    ArrI16(Vec<i16>),
+    ArrU16(Vec<u16>),
+    ArrI32(Vec<i32>),
+    ArrU32(Vec<u32>),
+    ArrF32(Vec<u32>),
+}
+
+impl AuxValue {
+    pub fn as_int(&self) -> Option<i64> {
+        Some(match self {
+            AuxValue::I8(n) => *n as i64,
+            AuxValue::U8(n) => *n as i64,
+            AuxValue::I16(n) => *n as i64,
+            AuxValue::U16(n) => *n as i64,
+            AuxValue::I32(n) => *n as i64,
+            AuxValue::U32(n) => *n as i64,
+            AuxValue::Int(n) => *n,
+            _ => return None,
+        })
+    }
+
+    pub fn is_array(&self) -> bool {
+        matches!(self, AuxValue::ArrI8(_) | AuxValue::ArrU8(_) | AuxValue::ArrI16(_) | AuxValue::ArrU16(_) | AuxValue::ArrI32(_) | AuxValue::ArrU32(_) | AuxValue::ArrF32(_))
+    }
+
+    pub fn array_len(&self) -> Option<usize> {
+        Some(match self {
+            AuxValue::ArrI8(v) => v.len(),
+            AuxValue::ArrU8(v) => v.len(),
+            AuxValue::ArrI16(v) => v.len(),
+            AuxValue::ArrU16(v) => v.len(),
+            AuxValue::ArrI32(v) => v.len(),
+            AuxValue::ArrU32(v) => v.len(),
+            AuxValue::ArrF32(v) => v.len(),
+            _ => return None,
+        })
+    }
+
+    /// BAM type letter (`A c C s S i I f Z H B`); `Int` reports `i`.
+    pub fn bam_type(&self) -> u8 {
+        match self {
+            AuxValue::Char(_) => b'A',
+            AuxValue::I8(_) => b'c',
+            AuxValue::U8(_) => b'C',
+            AuxValue::I16(_) => b's',
+            AuxValue::U16(_) => b'S',
+            AuxValue::I32(_) | AuxValue::Int(_) => b'i',
+            AuxValue::U32(_) => b'I',
+            AuxValue::F32(_) => b'f',
+            AuxValue::Str(_) => b'Z',
+            AuxValue::Hex(_) => b'H',
+            _ => b'B',
+        }
+    }
+
+    /// BAM array subtype letter for arrays.
+    pub fn bam_subtype(&self) -> Option<u8> {
+        Some(match self {
+            AuxValue::ArrI8(_) => b'c',
+            AuxValue::ArrU8(_) => b'C',
+            AuxValue::ArrI16(_) => b's',
+            AuxValue::ArrU16(_) => b'S',
+            AuxValue::ArrI32(_) => b'i',
+            AuxValue::ArrU32(_) => b'I',
+            AuxValue::ArrF32(_) => b'f',
+            _ => return None,
+        })
+    }
+
+    pub fn has_nonfinite_float(&self) -> bool {
+        match self {
+            AuxValue::F32(b) => !f32::from_bits(*b).is_finite(),
+            AuxValue::ArrF32(v) => v.iter().any(|b| !f32::from_bits(*b).is_finite()),
+            _ => false,
+        }
+    }
+
+    pub fn to_noodles(&self) -> Value {
+        match self {
+            AuxValue::Char(c) => Value::Character(*c),
+            AuxValue::I8(n) => Value::Int8(*n),
+            AuxValue::U8(n) => Value::UInt8(*n),
+            AuxValue::I16(n) => Value::Int16(*n),
+            AuxValue::U16(n) => Value::UInt16(*n),
+            AuxValue::I32(n) => Value::Int32(*n),
+            AuxValue::U32(n) => Value::UInt32(*n),
+            AuxValue::Int(n) => {
+                if *n < 0 {
+                    Value::Int32(*n as i32)
+                } else {
+                    Value::UInt32(*n as u32)
+                }
+            }
+            AuxValue::F32(b) => Value::Float(f32::from_bits(*b)),
+            AuxValue::Str(s) => Value::String(s.0.clone().into()),
+            AuxValue::Hex(s) => Value::Hex(s.0.clone().into()),
+            AuxValue::ArrI8(v) => Value::Array(Array::Int8(v.clone())),
+            AuxValue::ArrU8(v) => Value::Array(Array::UInt8(v.clone())),
+            AuxValue::ArrI16(v) => Value::Array(Array::Int16(v.clone())),
+            AuxValue::ArrU16(v) => Value::Array(Array::UInt16(v.clone())),
+            AuxValue::ArrI32(v) => Value::Array(Array::Int32(v.clone())),
+            AuxValue::ArrU32(v) => Value::Array(Array::UInt32(v.clone())),
+            AuxValue::ArrF32(v) => Value::Array(Array::Float(v.iter().map(|b| f32::from_bits(*b)).collect())),
+        }
+    }
+
+    pub fn from_noodles(v: &Value) -> AuxValue {
+        match v {
+            Value::Character(c) => AuxValue::Char(*c),
+            Value::Int8(n) => AuxValue::I8(*n),
+            Value::UInt8(n) => AuxValue::U8(*n),
+            Value::Int16(n) => AuxValue::I16(*n),
+            Value::UInt16(n) => AuxValue::U16(*n),
+            Value::Int32(n) => AuxValue::I32(*n),
+            Value::UInt32(n) => AuxValue::U32(*n),
+            Value::Float(x) => AuxValue::F32(x.to_bits()),
+            Value::String(s) => AuxValue::Str(B(s.to_vec())),
+            Value::Hex(s) => AuxValue::Hex(B(s.to_vec())),
+            Value::Array(a) => match a {
+                Array::Int8(v) => AuxValue::ArrI8(v.clone()),
+                Array::UInt8(v) => AuxValue::ArrU8(v.clone()),
+                Array::Int16(v) => AuxValue::ArrI16(v.clone()),
+                Array::UInt16(v) => AuxValue::ArrU16(v.clone()),
+                Array::Int32(v) => AuxValue::ArrI32(v.clone()),
+                Array::UInt32(v) => AuxValue::ArrU32(v.clone()),
+                Array::Float(v) => AuxValue::ArrF32(v.iter().map(|x| x.to_bits()).collect()),
+            },
+        }
+    }
+
+    /// Model of a borrowed ("lazy") aux value as the format readers hand it out.
+    pub fn from_lazy(v: &sam::alignment::record::data::field::Value<'_>) -> std::io::Result<AuxValue> {
+        use sam::alignment::record::data::field::{Value as L, value::Array as LA};
+        Ok(match v {
+            L::Character(c) => AuxValue::Char(*c),
+            L::Int8(n) => AuxValue::I8(*n),
+            L::UInt8(n) => AuxValue::U8(*n),
+            L::Int16(n) => AuxValue::I16(*n),
+            L::UInt16(n) => AuxValue::U16(*n),
+            L::Int32(n) => AuxValue::I32(*n),
+            L::UInt32(n) => AuxValue::U32(*n),
+            L::Float(x) => AuxValue::F32(x.to_bits()),
+            L::String(s) => AuxValue::Str(B(s.to_vec())),
+            L::Hex(s) => AuxValue::Hex(B(s.to_vec())),
+            L::Array(a) => match a {
+                LA::Int8(v) => AuxValue::ArrI8(v.iter().collect::<std::io::Result<_>>()?),
+                LA::UInt8(v) => AuxValue::ArrU8(v.iter().collect::<std::io::Result<_>>()?),
+                LA::Int16(v) => AuxValue::ArrI16(v.iter().collect::<std::io::Result<_>>()?),
+                LA::UInt16(v) => AuxValue::ArrU16(v.iter().collect::<std::io::Result<_>>()?),
+                LA::Int32(v) => AuxValue::ArrI32(v.iter().collect::<std::io::Result<_>>()?),
+                LA::UInt32(v) => AuxValue::ArrU32(v.iter().collect::<std::io::Result<_>>()?),
+                LA::Float(v) => AuxValue::ArrF32(v.iter().map(|r| r.map(|x| x.to_bits())).collect::<std::io::Result<_>>()?),
+            },
+        })
+    }
+
+    /// `TYPE:VALUE` rendering for transcripts: exact integer type letters, floats as hex bit
+    /// patterns (so that it never depends on a float formatter).
+    pub fn canonical(&self) -> String {
+        fn arr<T: fmt::Display>(c: char, v: &[T]) -> String {
+            let mut s = format!("B:{c}");
+            for x in v {
+                s.push(',');
+                s.push_str(&x.to_string());
+            }
+            s
+        }
+        match self {
+            AuxValue::Char(c) => format!("A:{}", [*c].escape_ascii()),
+            AuxValue::I8(n) => format!("c:{n}"),
+            AuxValue::U8(n) => format!("C:{n}"),
+            AuxValue::I16(n) => format!("s:{n}"),
+            AuxValue::U16(n) => format!("S:{n}"),
+            AuxValue::I32(n) => format!("i:{n}"),
+            AuxValue::U32(n) => format!("I:{n}"),
+            AuxValue::Int(n) => format!("int:{n}"),
+            AuxValue::F32(b) => format!("f:0x{b:08x}"),
+            AuxValue::Str(s) => format!("Z:{}", s.0.escape_ascii()),
+            AuxValue::Hex(s) => format!("H:{}", s.0.escape_ascii()),
+            AuxValue::ArrI8(v) => arr('c', v),
+            AuxValue::ArrU8(v) => arr('C', v),
+            AuxValue::ArrI16(v) => arr('s', v),
+            AuxValue::ArrU16(v) => arr('S', v),
+            AuxValue::ArrI32(v) => arr('i', v),
+            AuxValue::ArrU32(v) => arr('I', v),
+            AuxValue::ArrF32(v) => {
+                let mut s = "B:f".to_string();
+                for b in v {
+                    s.push_str(&format!(",0x{b:08x}"));
+                }
+                s
+            }
+        }
+    }
+}
+
+#[derive(Clone, Debug, PartialEq, Eq, Serialize, Deserialize)]
+pub struct AlnRecord {
+    pub name: Option<B>,
+    /// the 12 defined flag bits
+    pub flags: u16,
+    pub ref_id: Option<u64>,
+    /// 1-based
+    pub pos: Option<u64>,
+    /// `None` = 255
+    pub mapq: Option<u8>,
+    pub cigar: CigarSpec,
+    pub mate_ref_id: Option<u64>,
+    /// 1-based
+    pub mate_pos: Option<u64>,
+    pub tlen: i32,
+    pub seq: SeqSpec,
+    pub qual: QualSpec,
+    pub aux: Vec<(Tag, AuxValue)>,
+}
+
+impl Default for AlnRecord {
+    fn default() -> Self {
+        AlnRecord {
+            name: None,
+            flags: 4,
+            ref_id: None,
+            pos: None,
+            mapq: None,
+            cigar: CigarSpec::Ops(vec![]),
+            mate_ref_id: None,
+            mate_pos: None,
+            tlen: 0,
+            seq: SeqSpec::Bases(B::default()),
+            qual: QualSpec::Scores(vec![]),
+            aux: vec![],
+        }
+    }
+}
+
+/// Normal forms under which records are compared.
+#[derive(Clone, Copy, Debug, PartialEq, Eq)]
+pub struct Norm {
+    /// BAM base alphabet folding: upper-case, everything outside `=ACMGRSVTWYHKDBN` → `N`
+    pub fold_bases: bool,
+    /// integer aux values lose their storage width (SAM text has a single `i` type)
+    pub numeric_ints: bool,
+}
+
+impl Norm {
+    /// nothing folded (explicit form only)
+    pub const EXACT: Norm = Norm { fold_bases: false, numeric_ints: false };
+    /// what a BAM round trip preserves
+    pub const BAM: Norm = Norm { fold_bases: true, numeric_ints: false };
+    /// what a SAM text round trip preserves
+    pub const SAM: Norm = Norm { fold_bases: false, numeric_ints: true };
+    /// what survives both (SAM ↔ BAM comparisons)
+    pub const CROSS: Norm = Norm { fold_bases: true, numeric_ints: true };
+}
+
+/// BAM base folding of one byte (SAMv1 §4.2.3: case-insensitive, everything else is `N`).
+pub fn fold_base(b: u8) -> u8 {
+    let u = b.to_ascii_uppercase();
+    if BAM_BASES.contains(&u) { u } else { b'N' }
+}
+
+impl AlnRecord {
+    pub fn cigar_ops(&self) -> Vec<(u8, u64)> {
+        self.cigar.ops()
+    }
+
+    /// Σ lengths of `M I S = X`
+    pub fn read_len(&self) -> u64 {
+        self.cigar_ops().iter().filter(|(k, _)| consumes_read(*k)).map(|(_, l)| *l).sum()
+    }
+
+    /// Σ lengths of `M D N = X`
+    pub fn ref_span(&self) -> u64 {
+        self.cigar_ops().iter().filter(|(k, _)| consumes_ref(*k)).map(|(_, l)| *l).sum()
+    }
+
+    /// 1-based inclusive end: `pos + max(1, span) − 1`
+    pub fn end(&self) -> Option<u64> {
+        self.pos.map(|p| p + self.ref_span().max(1) - 1)
+    }
+
+    pub fn bases(&self) -> Vec<u8> {
+        match &self.seq {
+            SeqSpec::Bases(b) => b.0.clone(),
+            SeqSpec::Auto { seed } => {
+                let n = self.read_len() as usize;
+                let mut r = XorShift::new(*seed as u64 + 0xba5e);
+                (0..n).map(|_| BAM_BASES[(r.next() % 16) as usize]).collect()
+            }
+        }
+    }
+
+    pub fn quals(&self) -> Vec<u8> {
+        match &self.qual {
+            QualSpec::Scores(v) => v.clone(),
+            QualSpec::Auto { seed } => {
+                let n = self.bases().len();
+                let mut r = XorShift::new(*seed as u64 + 0x9a1);
+                (0..n).map(|_| 10 + (r.next() % 84) as u8).collect()
+            }
+        }
+    }
+
+    /// The same record with compact specs expanded.
+    pub fn explicit(&self) -> AlnRecord {
+        let mut r = self.clone();
+        r.cigar = CigarSpec::Ops(self.cigar_ops());
+        r.seq = SeqSpec::Bases(B(self.bases()));
+        r.qual = QualSpec::Scores(self.quals());
+        r
+    }
+
+    /// Explicit form under a normal form.
+    pub fn normalized(&self, n: Norm) -> AlnRecord {
+        let mut r = self.explicit();
+        if n.fold_bases {
+            if let SeqSpec::Bases(b) = &mut r.seq {
+                for x in b.0.iter_mut() {
+                    *x = fold_base(*x);
+                }
+            }
+        }
+        if n.numeric_ints {
+            for (_, v) in r.aux.iter_mut() {
+                if let Some(i) = v.as_int() {
+                    *v = AuxValue::Int(i);
+                }
+            }
+        }
+        r
+    }
+
+    pub fn to_noodles(&self) -> Result<RecordBuf, String> {
+        let mut r = RecordBuf::default();
+        *r.name_mut() = self.name.as_ref().map(|n| n.0.clone().into());
+        *r.flags_mut() = Flags::from(self.flags);
+        *r.reference_sequence_id_mut() = self.ref_id.map(|i| i as usize);
+        *r.alignment_start_mut() = match self.pos {
+            None => None,
+            Some(p) => Some(Position::new(p as usize).ok_or("position 0")?),
+        };
+        *r.mapping_quality_mut() = match self.mapq {
+            None => None,
+            Some(q) => Some(MappingQuality::new(q).ok_or("mapping quality 255 given as a value")?),
+        };
+        *r.cigar_mut() = self.cigar_ops().iter().map(|(k, l)| Op::new(kind_of(*k), *l as usize)).collect();
+        *r.mate_reference_sequence_id_mut() = self.mate_ref_id.map(|i| i as usize);
+        *r.mate_alignment_start_mut() = match self.mate_pos {
+            None => None,
+            Some(p) => Some(Position::new(p as usize).ok_or("mate position 0")?),
+        };
+        *r.template_length_mut() = self.tlen;
+        *r.sequence_mut() = self.bases().into();
+        *r.quality_scores_mut() = self.quals().into();
+        let data = r.data_mut();
+        for (t, v) in &self.aux {
+            if data.insert(NTag::new(t.0[0], t.0[1]), v.to_noodles()).is_some() {
+                return Err(format!("duplicate aux tag {t:?}"));
+            }
+        }
+        Ok(r)
+    }
+
+    pub fn from_noodles(r: &RecordBuf) -> AlnRecord {
+        AlnRecord {
+            name: r.name().map(|n| B(n.to_vec())),
+            flags: u16::from(r.flags()),
+            ref_id: r.reference_sequence_id().map(|i| i as u64),
+            pos: r.alignment_start().map(|p| p.get() as u64),
+            mapq: r.mapping_quality().map(u8::from),
+            cigar: CigarSpec::Ops(r.cigar().as_ref().iter().map(|op| (code_of(op.kind()), op.len() as u64)).collect()),
+            mate_ref_id: r.mate_reference_sequence_id().map(|i| i as u64),
+            mate_pos: r.mate_alignment_start().map(|p| p.get() as u64),
+            tlen: r.template_length(),
+            seq: SeqSpec::Bases(B(r.sequence().as_ref().to_vec())),
+            qual: QualSpec::Scores(r.quality_scores().as_ref().to_vec()),
+            aux: r.data().iter().map(|(t, v)| (Tag(*AsRef::<[u8; 2]>::as_ref(&t)), AuxValue::from_noodles(v))).collect(),
+        }
+    }
+
+    /// Field-wise differences of the explicit forms (empty = equal); entries name the field.
+    pub fn diff(&self, other: &AlnRecord) -> Vec<(&'static str, String)> {
+        let (a, b) = (self.explicit(), other.explicit());
+        let mut d = Vec::new();
+        macro_rules! cmp {
+            ($f:ident) => {
+                if a.$f != b.$f {
+                    d.push((stringify!($f), format!("{} vs {}", crate::engine::trunc(&format!("{:?}", a.$f), 300), crate::engine::trunc(&format!("{:?}", b.$f), 300))));
+                }
+            };
+        }
+        cmp!(name);
+        cmp!(flags);
+        cmp!(ref_id);
+        cmp!(pos);
+        cmp!(mapq);
+        cmp!(cigar);
+        cmp!(mate_ref_id);
+        cmp!(mate_pos);
+        cmp!(tlen);
+        cmp!(seq);
+        cmp!(qual);
+        cmp!(aux);
+        d
+    }
+
+    /// An empty `B` array that is not the last aux field (the class of a known lazy-SAM-reader defect).
+    pub fn has_nonlast_empty_array(&self) -> bool {
+        let n = self.aux.len();
+        self.aux.iter().enumerate().any(|(i, (_, v))| i + 1 < n && v.array_len() == Some(0))
+    }
+
+    /// CIGAR in SAM notation (`*` when empty).
+    pub fn cigar_string(&self) -> String {
+        let ops = self.cigar_ops();
+        if ops.is_empty() {
+            return "*".into();
+        }
+        let mut s = String::new();
+        for (k, l) in ops {
+            s.push_str(&l.to_string());
+            s.push(KIND_CHARS[(k as usize).min(8)] as char);
+        }
+        s
+    }
+}
+
+/// One-line canonical rendering for transcripts: SAM-like columns with numeric reference ids,
+/// exact aux types and float bit patterns. Independent of every noodles formatter.
+pub fn canonical_text(r: &AlnRecord) -> String {
+    let opt = |x: Option<u64>| x.map(|v| v.to_string()).unwrap_or_else(|| "*".into());
+    let bases = r.bases();
+    let quals = r.quals();
+    let mut s = format!(
+        "{}\t{}\t{}\t{}\t{}\t{}\t{}\t{}\t{}\t{}\t{}",
+        r.name.as_ref().map(|n| n.0.escape_ascii().to_string()).unwrap_or_else(|| "*".into()),
+        r.flags,
+        opt(r.ref_id),
+        opt(r.pos),
+        r.mapq.map(|q| q.to_string()).unwrap_or_else(|| "255".into()),
+        r.cigar_string(),
+        opt(r.mate_ref_id),
+        opt(r.mate_pos),
+        r.tlen,
+        if bases.is_empty() { "*".to_string() } else { bases.escape_ascii().to_string() },
+        if quals.is_empty() { "*".to_string() } else { quals.iter().map(|q| format!("{q:02x}")).collect::<String>() },
+    );
+    for (t, v) in &r.aux {
+        s.push('\t');
+        s.push_str(&format!("{}:{}", t.0.escape_ascii(), v.canonical()));
+    }
+    s
+}
+
+#[derive(Clone, Debug, PartialEq, Eq, Serialize, Deserialize, Default)]
+pub struct AlnDoc {
+    pub header: AlnHeader,
+    pub records: Vec<AlnRecord>,
+}
+
+impl AlnDoc {
+    /// The noodles header and records of the document.
+    pub fn to_noodles(&self) -> Result<(sam::Header, Vec<RecordBuf>), String> {
+        Ok((self.header.to_noodles()?, self.records.iter().map(|r| r.to_noodles()).collect::<Result<_, _>>()?))
+    }
+
+    /// Canonical transcript lines: the header text (harness rendering) followed by one
+    /// [`canonical_text`] line per record under `norm`.
+    pub fn canonical_lines(&self, norm: Norm) -> Vec<String> {
+        let mut v: Vec<String> = String::from_utf8_lossy(&self.header.to_text()).lines().map(|l| l.to_string()).collect();
+        v.extend(self.records.iter().map(|r| canonical_text(&r.normalized(norm))));
+        v
+    }
+}
+
+// ---------------------------------------------------------------------------------------------
+// strategies: headers
+// ---------------------------------------------------------------------------------------------
+
+/// Which reference dictionaries the header strategy produces.
+#[derive(Clone, Copy, Debug, PartialEq, Eq)]
+pub enum Refs {
+    /// with and without a dictionary
+    Any,
+    /// never a dictionary
+    None,
+    /// at least one reference
+    Some,
+}
+
+#[derive(Clone, Debug)]
+pub struct HeaderParams {
+    pub refs: Refs,
+    /// upper bound for the common case; a small fraction of headers holds up to `many_refs`
+    pub max_refs: usize,
+    pub many_refs: usize,
+    /// 0..=max of each of @RG, @PG, @CO
+    pub max_lines: usize,
+    /// reference lengths at most this (≤ 2^31−1)
+    pub max_ref_len: u64,
+}
+
+impl HeaderParams {
+    pub fn for_tier(tier: Tier) -> HeaderParams {
+        HeaderParams { refs: Refs::Any, max_refs: 5, many_refs: tier.pick(300, 1200), max_lines: 4, max_ref_len: (1 << 31) - 1 }
+    }
+    pub fn with_refs(mut self, r: Refs) -> Self {
+        self.refs = r;
+        self
+    }
+}
+
+/// `[ -~]+` header field values, with the separators the grammar allows inside a value.
+fn header_value() -> BoxedStrategy<B> {
+    prop_oneof![
+        4 => proptest::collection::vec(0x20u8..=0x7e, 1..12).prop_map(B),
+        2 => proptest::sample::select(vec!["coordinate", "queryname", "unsorted", "unknown", "query", "none", "reference", "ILLUMINA", "bwa mem -t 4 ref.fa r.fq", "a:b:c", " lead", "trail ", "@x", "1", "*", "="]).prop_map(B::new),
+        1 => proptest::collection::vec(0x20u8..=0x7e, 12..80).prop_map(B),
+    ]
+    .boxed()
+}
+
+fn user_tag() -> BoxedStrategy<Tag> {
+    (prop_oneof![(b'a'..=b'z'), (b'A'..=b'Z')], prop_oneof![(b'a'..=b'z'), (b'A'..=b'Z'), (b'0'..=b'9')]).prop_map(|(a, b)| Tag([a, b])).boxed()
+}
+
+/// Ordered other-fields with unique tags, none of which is in `reserved`.
+fn fields(standard: &'static [&'static [u8; 2]], reserved: &'static [&'static [u8; 2]], max: usize) -> BoxedStrategy<Fields> {
+    let std_tags: Vec<Tag> = standard.iter().map(|t| Tag(**t)).collect();
+    let t = prop_oneof![3 => proptest::sample::select(std_tags), 2 => user_tag()];
+    proptest::collection::vec((t, header_value()), 0..=max)
+        .prop_map(move |v| {
+            let mut out: Fields = Vec::new();
+            for (t, val) in v {
+                if reserved.iter().any(|r| **r == t.0) || out.iter().any(|(u, _)| *u == t) {
+                    continue;
+                }
+                out.push((t, val));
+            }
+            out
+        })
+        .boxed()
+}
+
+fn version() -> BoxedStrategy<(u32, u32)> {
+    prop_oneof![
+        6 => proptest::sample::select(vec![(1u32, 0u32), (1, 3), (1, 4), (1, 5), (1, 6), (1, 7)]),
+        1 => (0u32..4, 0u32..20),
+        1 => (any::<u32>(), any::<u32>()),
+    ]
+    .boxed()
+}
+
+/// First byte: `[0-9A-Za-z!#$%&+./:;?@^_|~-]`, rest additionally `*` and `=` (SAMv1 §1.2.1).
+fn rname_char(first: bool) -> BoxedStrategy<u8> {
+    let mut all: Vec<u8> = (b'!'..=b'~').filter(|b| !b"\\,\"`'()[]{}<>".contains(b)).collect();
+    if first {
+        all.retain(|b| *b != b'*' && *b != b'=');
+    }
+    prop_oneof![
+        5 => prop_oneof![(b'a'..=b'z'), (b'A'..=b'Z'), (b'0'..=b'9'), Just(b'_'), Just(b'.')],
+        1 => proptest::sample::select(all),
+    ]
+    .boxed()
+}
+
+fn rname() -> BoxedStrategy<B> {
+    prop_oneof![
+        3 => (rname_char(true), proptest::collection::vec(rname_char(false), 0..8)).prop_map(|(f, mut r)| {
+            let mut v = vec![f];
+            v.append(&mut r);
+            B(v)
+        }),
+        1 => (0u32..100).prop_map(|i| B::new(format!("chr{i}"))),
+        1 => (rname_char(true), proptest::collection::vec(rname_char(false), 8..60)).prop_map(|(f, mut r)| {
+            let mut v = vec![f];
+            v.append(&mut r);
+            B(v)
+        }),
+    ]
+    .boxed()
+}
+
+fn ref_len(max: u64) -> BoxedStrategy<u64> {
+    let b: Vec<u64> = vec![1, 2, 100, 16383, 16384, 16385, 1 << 20, (1 << 29) - 1, 1 << 29, (1 << 29) + 1, (1 << 31) - 2, (1 << 31) - 1].into_iter().filter(|x| *x <= max).collect();
+    prop_oneof![
+        2 => proptest::sample::select(b),
+        2 => 1u64..=max.min(100_000),
+        1 => 1u64..=max,
+    ]
+    .boxed()
+}
+
+/// id values for @RG / @PG (`[ -~]+`).
+fn id_value() -> BoxedStrategy<B> {
+    prop_oneof![
+        3 => proptest::collection::vec(prop_oneof![(b'a'..=b'z'), (b'0'..=b'9'), Just(b'.'), Just(b'-')], 1..8).prop_map(B),
+        1 => proptest::collection::vec(0x20u8..=0x7e, 1..16).prop_map(B),
+    ]
+    .boxed()
+}
+
+/// Comment text: anything but line terminators (tabs, leading/trailing blanks and UTF-8 included).
+fn comment() -> BoxedStrategy<B> {
+    prop_oneof![
+        3 => proptest::collection::vec(prop_oneof![8 => 0x20u8..=0x7e, 1 => Just(b'\t')], 0..30).prop_map(B),
+        1 => proptest::sample::select(vec!["", " ", "\t", "\ttab first", "trailing tab\t", "@HD\tVN:1.6", "@CO\tnested", "naïve café — ünïcödé ✓", "a\tb\tc", "key:value\tSN:x"]).prop_map(B::new),
+    ]
+    .boxed()
+}
+
+fn dedup_by_key<T, K: PartialEq>(v: Vec<T>, key: impl Fn(&T) -> K) -> Vec<T> {
+    let mut out: Vec<T> = Vec::new();
+    for x in v {
+        if !out.iter().any(|y| key(y) == key(&x)) {
+            out.push(x);
+        }
+    }
+    out
+}
+
+const HD_STD: &[&[u8; 2]] = &[b"SO", b"GO", b"SS"];
+const SQ_STD: &[&[u8; 2]] = &[b"AH", b"AN", b"AS", b"DS", b"M5", b"SP", b"TP", b"UR"];
+const RG_STD: &[&[u8; 2]] = &[b"BC", b"CN", b"DS", b"DT", b"FO", b"KS", b"LB", b"PG", b"PI", b"PL", b"PM", b"PU", b"SM"];
+const PG_STD: &[&[u8; 2]] = &[b"PN", b"CL", b"PP", b"DS", b"VN"];
+
+pub fn header_with(p: &HeaderParams) -> BoxedStrategy<AlnHeader> {
+    let hd = prop_oneof![
+        1 => Just(None),
+        3 => (version(), fields(HD_STD, &[b"VN"], 3)).prop_map(|((major, minor), other)| Some(HdLine { major, minor, other })),
+    ];
+    let max_ref_len = p.max_ref_len;
+    let sq = move || (rname(), ref_len(max_ref_len), prop_oneof![3 => Just(Vec::new()), 1 => fields(SQ_STD, &[b"SN", b"LN"], 3)]).prop_map(|(name, len, other)| SqLine { name, len, other });
+    let few = proptest::collection::vec(sq(), 0..=p.max_refs);
+    let few1 = proptest::collection::vec(sq(), 1..=p.max_refs.max(1));
+    let many = proptest::collection::vec(sq(), p.max_refs.max(1)..=p.many_refs.max(p.max_refs.max(1)));
+    let refs: BoxedStrategy<Vec<SqLine>> = match p.refs {
+        Refs::None => Just(Vec::new()).boxed(),
+        Refs::Any => prop_oneof![3 => Just(Vec::new()), 12 => few, 1 => many].boxed(),
+        Refs::Some => prop_oneof![12 => few1, 1 => many].boxed(),
+    };
+    let need_ref = p.refs == Refs::Some;
+    let rg = proptest::collection::vec((id_value(), fields(RG_STD, &[b"ID"], 3)).prop_map(|(id, other)| IdLine { id, other }), 0..=p.max_lines);
+    let pg = proptest::collection::vec((id_value(), fields(PG_STD, &[b"ID"], 3)).prop_map(|(id, other)| IdLine { id, other }), 0..=p.max_lines);
+    let co = proptest::collection::vec(comment(), 0..=p.max_lines);
+    let general = (hd, refs, rg, pg, co)
+        .prop_map(move |(hd, refs, rg, pg, co)| {
+            let mut refs = dedup_by_key(refs, |r| r.name.clone());
+            if need_ref && refs.is_empty() {
+                refs.push(SqLine { name: B::new("ref"), len: 1000, other: vec![] });
+            }
+            AlnHeader { hd, refs, read_groups: dedup_by_key(rg, |r| r.id.clone()), programs: dedup_by_key(pg, |r| r.id.clone()), comments: co }
+        });
+    if need_ref {
+        general.boxed()
+    } else {
+        // the empty header and the bare `@HD` line are classes of their own
+        prop_oneof![
+            1 => Just(AlnHeader::default()),
+            1 => Just(AlnHeader { hd: Some(HdLine { major: 1, minor: 6, other: vec![] }), ..AlnHeader::default() }),
+            38 => general,
+        ]
+        .boxed()
+    }
+}
+
+/// Headers over the whole domain: any mix of @HD/@SQ/@RG/@PG/@CO, standard and user tags,
+/// 0..many references.
+pub fn header(tier: Tier) -> BoxedStrategy<AlnHeader> {
+    header_with(&HeaderParams::for_tier(tier))
+}
+
+// ---------------------------------------------------------------------------------------------
+// strategies: records
+// ---------------------------------------------------------------------------------------------
+
+/// Which writer(s) must accept the record.
+#[derive(Clone, Copy, Debug, PartialEq, Eq)]
+pub enum Target {
+    /// valid for the BAM writer: arbitrary base bytes, any float bit pattern
+    Bam,
+    /// valid for the SAM text writer: bases `[A-Za-z=.]`, finite floats
+    Sam,
+    /// valid for both, and bases mostly inside the BAM alphabet (cross-format comparisons)
+    Both,
+}
+
+#[derive(Clone, Copy, Debug, PartialEq, Eq)]
+pub enum Names {
+    Mixed,
+    Present,
+    Missing,
+}
+
+#[derive(Clone, Debug)]
+pub struct Mode {
+    pub target: Target,
+    /// positions dense at 1, 2^14k±1, 2^29±1, 2^31−1 (otherwise small uniform positions)
+    pub boundary_positions: bool,
+    /// occasionally (≈2 %) a `CigarSpec::Huge` of 65 530..=70 000 operations
+    pub huge_cigar: bool,
+    pub names: Names,
+    /// common-case bound on the number of CIGAR ops (a small fraction goes up to 10× this)
+    pub max_ops: usize,
+    pub max_aux: usize,
+    /// common-case bound on array lengths (a small fraction goes up to `long_array`)
+    pub max_array: usize,
+    pub long_array: usize,
+    /// weight of the empty array among array lengths, out of ≈50 (BAM: 7; SAM targets: 1, because
+    /// the lazy SAM reader has a known defect on an empty array that is not the last field)
+    pub empty_array_weight: u32,
+    /// largest position generated (≤ 2^31−1)
+    pub max_pos: u64,
+}
+
+impl Mode {
+    pub fn new(target: Target) -> Mode {
+        Mode {
+            target,
+            boundary_positions: true,
+            huge_cigar: false,
+            names: Names::Mixed,
+            max_ops: 8,
+            max_aux: 6,
+            max_array: 6,
+            long_array: 300,
+            empty_array_weight: if target == Target::Bam { 7 } else { 1 },
+            max_pos: (1 << 31) - 1,
+        }
+    }
+    pub fn bam() -> Mode {
+        Mode::new(Target::Bam)
+    }
+    pub fn sam() -> Mode {
+        Mode::new(Target::Sam)
+    }
+    pub fn both() -> Mode {
+        Mode::new(Target::Both)
+    }
+    pub fn huge(mut self, on: bool) -> Self {
+        self.huge_cigar = on;
+        self
+    }
+    pub fn names(mut self, n: Names) -> Self {
+        self.names = n;
+        self
+    }
+    pub fn max_pos(mut self, p: u64) -> Self {
+        self.max_pos = p.clamp(1, (1 << 31) - 1);
+        self
+    }
+    pub fn plain_positions(mut self) -> Self {
+        self.boundary_positions = false;
+        self
+    }
+}
+
+/// `[!-?A-~]`
+fn name_byte() -> BoxedStrategy<u8> {
+    prop_oneof![
+        6 => prop_oneof![(b'a'..=b'z'), (b'A'..=b'Z'), (b'0'..=b'9'), Just(b':'), Just(b'_'), Just(b'/')],
+        1 => prop_oneof![(b'!'..=b'?'), (b'A'..=b'~')],
+    ]
+    .boxed()
+}
+
+pub fn name_strategy(names: Names) -> BoxedStrategy<Option<B>> {
+    let present = prop_oneof![
+        6 => proptest::collection::vec(name_byte(), 1..20),
+        1 => proptest::collection::vec(name_byte(), 250..=254),
+        1 => proptest::collection::vec(name_byte(), 1..=254),
+        1 => proptest::sample::select(vec!["**", "*a", "a*", "=", "!", "~", "0"]).prop_map(|s| s.as_bytes().to_vec()),
+    ]
+    .prop_map(|mut v| {
+        if v == b"*" {
+            v = b"x".to_vec();
+        }
+        Some(B(v))
+    });
+    match names {
+        Names::Present => present.boxed(),
+        Names::Missing => Just(None).boxed(),
+        Names::Mixed => prop_oneof![1 => Just(None), 5 => present].boxed(),
+    }
+}
+
+/// 1-based positions, boundary-dense.
+pub fn position_strategy(max: u64, dense: bool) -> BoxedStrategy<u64> {
+    let max = max.clamp(1, (1 << 31) - 1);
+    if !dense {
+        return (1u64..=max.min(100_000)).boxed();
+    }
+    let mut b: Vec<u64> = vec![1, 2, 3];
+    for k in [14u32, 17, 20, 23, 26, 28, 29, 30] {
+        let x = 1u64 << k;
+        b.extend_from_slice(&[x - 1, x, x + 1, x + 2]);
+    }
+    for m in [3u64, 5, 7] {
+        b.extend_from_slice(&[m * 16384 - 1, m * 16384, m * 16384 + 1]);
+    }
+    b.extend_from_slice(&[(1 << 31) - 2, (1 << 31) - 1]);
+    b.retain(|x| *x >= 1 && *x <= max);
+    let log = (0u32..31, any::<u32>()).prop_map(move |(bits, x)| (((x as u64) & ((1u64 << (bits + 1)) - 1)).max(1)).min(max));
+    prop_oneof![
+        4 => proptest::sample::select(b),
+        3 => 1u64..=max.min(70_000),
+        2 => log,
+    ]
+    .boxed()
+}
+
+fn cigar_op(big_span: bool) -> BoxedStrategy<(u8, u64)> {
+    // read-consuming ops stay short so that sequences stay small; D/N/H/P may be very long
+    let read_len = prop_oneof![10 => 1u64..=12, 2 => 12u64..=150, 1 => Just(0u64)];
+    let other_len = if big_span {
+        prop_oneof![
+            5 => 1u64..=40,
+            2 => proptest::sample::select(vec![16383u64, 16384, 16385, 131072, 1 << 20, (1 << 28) - 2, (1 << 28) - 1]),
+            2 => 1u64..(1 << 28),
+            1 => Just(0u64),
+        ]
+        .boxed()
+    } else {
+        prop_oneof![8 => 1u64..=40, 1 => Just(0u64)].boxed()
+    };
+    prop_oneof![
+        5 => (proptest::sample::select(vec![0u8, 1, 4, 7, 8]), read_len).prop_map(|(k, l)| (k, l)),
+        3 => (proptest::sample::select(vec![2u8, 3, 5, 6]), other_len).prop_map(|(k, l)| (k, l)),
+    ]
+    .boxed()
+}
+
+pub fn cigar_strategy(mode: &Mode) -> BoxedStrategy<CigarSpec> {
+    let big = mode.boundary_positions;
+    let m = mode.max_ops.max(1);
+    let ops = prop_oneof![
+        2 => Just(Vec::new()),
+        10 => proptest::collection::vec(cigar_op(big), 1..=m),
+        2 => proptest::collection::vec(cigar_op(big), m..=m * 10),
+    ]
+    .prop_map(CigarSpec::Ops);
+    if mode.huge_cigar {
+        prop_oneof![
+            49 => ops,
+            1 => (prop_oneof![proptest::sample::select(vec![65_534u32, 65_535, 65_536, 65_537]), 65_530u32..=70_000], any::<u32>()).prop_map(|(n_ops, seed)| CigarSpec::Huge { n_ops, seed }),
+        ]
+        .boxed()
+    } else {
+        ops.boxed()
+    }
+}
+
+fn base_pool(target: Target) -> BoxedStrategy<Vec<u8>> {
+    // the alphabet class is chosen per record, so that "pure BAM alphabet" records are frequent
+    let upper = || proptest::sample::select(BAM_BASES.to_vec());
+    let acgt = || proptest::sample::select(b"ACGTN".to_vec());
+    let lower = || proptest::sample::select(BAM_BASES.iter().map(|b| b.to_ascii_lowercase()).collect::<Vec<u8>>());
+    let sam_any = || prop_oneof![(b'A'..=b'Z'), (b'a'..=b'z'), Just(b'='), Just(b'.')];
+    let pool = |b: BoxedStrategy<u8>| proptest::collection::vec(b, 1..24);
+    let p_upper = pool(upper().boxed());
+    let p_acgt = pool(acgt().boxed());
+    let p_lower = pool(prop_oneof![2 => upper(), 1 => lower()].boxed());
+    let p_sam = pool(prop_oneof![2 => upper(), 1 => lower(), 2 => sam_any()].boxed());
+    let p_any = pool(prop_oneof![3 => upper(), 1 => lower(), 1 => sam_any(), 2 => any::<u8>()].boxed());
+    match target {
+        Target::Bam => prop_oneof![4 => p_upper, 3 => p_acgt, 2 => p_lower, 1 => p_sam, 2 => p_any].boxed(),
+        Target::Sam => prop_oneof![4 => p_upper, 3 => p_acgt, 2 => p_lower, 3 => p_sam].boxed(),
+        Target::Both => prop_oneof![8 => p_upper, 6 => p_acgt, 1 => p_lower, 1 => p_sam].boxed(),
+    }
+}
+
+fn qual_pool() -> BoxedStrategy<Vec<u8>> {
+    proptest::collection::vec(prop_oneof![6 => 0u8..=93, 2 => proptest::sample::select(vec![0u8, 9, 93]), 1 => 30u8..=41], 1..24).boxed()
+}
+
+pub fn aux_tag() -> BoxedStrategy<Tag> {
+    let std: Vec<Tag> =
+        [b"NM", b"MD", b"AS", b"RG", b"NH", b"XS", b"BC", b"MC", b"SA", b"OQ", b"ML", b"MM", b"X0", b"Y1", b"z9", b"HI", b"CO", b"CC"].iter().map(|t| Tag(**t)).collect();
+    prop_oneof![3 => proptest::sample::select(std), 2 => user_tag()].prop_map(|t| if &t.0 == b"CG" { Tag(*b"Cg") } else { t }).boxed()
+}
+
+fn f32_bits(finite_only: bool) -> BoxedStrategy<u32> {
+    let special: Vec<u32> = [
+        0.0f32, -0.0, 1.0, -1.0, 0.1, -0.1, 0.3, 1.0e-10, 1.5e10, 3.14159274, 16777216.0, 16777217.0, 123456.79, 1.0e30, 1.0e-30, f32::MAX, f32::MIN, f32::MIN_POSITIVE, f32::EPSILON, 0.5, 100.0, 1.0e7, 1.0e-7,
+        9.999999e-5, 1.17549421e-38,
+    ]
+    .iter()
+    .map(|x| x.to_bits())
+    .chain([1u32, 2, 0x007f_ffff, 0x8000_0001, 0x0080_0000, 0x7f7f_ffff, 0xff7f_ffff, 0x3f80_0001, 0x3f7f_ffff])
+    .collect();
+    let finite = any::<u32>().prop_map(|b| if f32::from_bits(b).is_finite() { b } else { b & 0x7f7f_ffff | (b & 0x8000_0000) });
+    if finite_only {
+        prop_oneof![3 => proptest::sample::select(special), 3 => finite, 1 => (-1000i32..1000).prop_map(|i| (i as f32 / 8.0).to_bits())].boxed()
+    } else {
+        let nonfinite = proptest::sample::select(vec![0x7f80_0000u32, 0xff80_0000, 0x7fc0_0000, 0xffc0_0000, 0x7f80_0001, 0x7fff_ffff, 0xffff_ffff, 0x7fa0_0000]);
+        prop_oneof![3 => proptest::sample::select(special), 3 => any::<u32>(), 2 => nonfinite].boxed()
+    }
+}
+
+macro_rules! int_strategy {
+    ($name:ident, $t:ty, $extra:expr) => {
+        fn $name() -> BoxedStrategy<$t> {
+            let mut b: Vec<$t> = vec![<$t>::MIN, <$t>::MIN + 1, <$t>::MAX, <$t>::MAX - 1, 0 as $t, 1 as $t];
+            let extra: Vec<i64> = $extra;
+            for e in extra {
+                if let Ok(x) = <$t>::try_from(e) {
+                    b.push(x);
+                }
+            }
+            prop_oneof![3 => proptest::sample::select(b), 2 => any::<$t>()].boxed()
+        }
+    };
+}
+
+fn int_edges() -> Vec<i64> {
+    vec![-1, -2, -127, -128, -129, 127, 128, 255, 256, -32767, -32768, -32769, 32767, 32768, 65535, 65536, -2147483647, 2147483647, 2147483648, 4294967294]
+}
+
+int_strategy!(i8s, i8, int_edges());
+int_strategy!(u8s, u8, int_edges());
+int_strategy!(i16s, i16, int_edges());
+int_strategy!(u16s, u16, int_edges());
+int_strategy!(i32s, i32, int_edges());
+int_strategy!(u32s, u32, int_edges());
+
+fn printable_string() -> BoxedStrategy<B> {
+    prop_oneof![
+        5 => proptest::collection::vec(0x20u8..=0x7e, 0..16).prop_map(B),
+        2 => proptest::sample::select(vec!["", " ", "  ", "*", "=", ":", "a:b", "1,2,3", "Z:x", " lead", "trail ", "10M2D", "~!@#$%^&*()", "0", "-1", "1e5"]).prop_map(B::new),
+        1 => proptest::collection::vec(0x20u8..=0x7e, 16..300).prop_map(B),
+    ]
+    .boxed()
+}
+
+fn hex_string() -> BoxedStrategy<B> {
+    proptest::collection::vec(proptest::sample::select(b"0123456789ABCDEF".to_vec()), 0..16)
+        .prop_map(|mut v| {
+            if v.len() % 2 == 1 {
+                v.pop();
+            }
+            B(v)
+        })
+        .boxed()
+}
+
+fn arr_len(mode: &Mode) -> BoxedStrategy<usize> {
+    let (m, l) = (mode.max_array, mode.long_array.max(mode.max_array));
+    let m1 = m.max(1);
+    prop_oneof![mode.empty_array_weight.max(1) => Just(0usize), 8 => Just(1usize), 32 => 1..=m1, 4 => m1..=l.max(m1), 4 => proptest::sample::select(vec![255usize.min(l), 256.min(l), 257.min(l)])].boxed()
+}
+
+pub fn aux_value(mode: &Mode) -> BoxedStrategy<AuxValue> {
+    let finite = mode.target != Target::Bam;
+    let n = arr_len(mode);
+    macro_rules! arr {
+        ($s:expr, $v:path) => {
+            n.clone().prop_flat_map(move |k| proptest::collection::vec($s, k..=k)).prop_map($v)
+        };
+    }
+    prop_oneof![
+        2 => (b'!'..=b'~').prop_map(AuxValue::Char),
+        2 => i8s().prop_map(AuxValue::I8),
+        2 => u8s().prop_map(AuxValue::U8),
+        2 => i16s().prop_map(AuxValue::I16),
+        2 => u16s().prop_map(AuxValue::U16),
+        2 => i32s().prop_map(AuxValue::I32),
+        2 => u32s().prop_map(AuxValue::U32),
+        3 => f32_bits(finite).prop_map(AuxValue::F32),
+        3 => printable_string().prop_map(AuxValue::Str),
+        2 => hex_string().prop_map(AuxValue::Hex),
+        1 => arr!(i8s(), AuxValue::ArrI8),
+        1 => arr!(u8s(), AuxValue::ArrU8),
+        1 => arr!(i16s(), AuxValue::ArrI16),
+        1 => arr!(u16s(), AuxValue::ArrU16),
+        1 => arr!(i32s(), AuxValue::ArrI32),
+        1 => arr!(u32s(), AuxValue::ArrU32),
+        2 => arr!(f32_bits(finite), AuxValue::ArrF32),
+    ]
+    .boxed()
+}
+
+pub fn aux_fields(mode: &Mode) -> BoxedStrategy<Vec<(Tag, AuxValue)>> {
+    let m = mode.max_aux;
+    prop_oneof![
+        2 => Just(Vec::new()),
+        8 => proptest::collection::vec((aux_tag(), aux_value(mode)), 1..=m.max(1)),
+        1 => proptest::collection::vec((aux_tag(), aux_value(mode)), m.max(1)..=m.max(1) * 4),
+    ]
+    .prop_map(|v| dedup_by_key(v, |x| x.0))
+    .boxed()
+}
+
+#[derive(Clone, Copy, Debug)]
+enum SeqChoice {
+    Missing,
+    /// the CIGAR's read length (or `free_len` when the CIGAR consumes no read base)
+    Fitting,
+}
+
+/// Records whose reference ids are *selectors* (`0..=65535`, to be mapped with
+/// [`AlnRecord::resolve_refs`]). Use [`record`] unless you build documents yourself.
+pub fn record_proto(mode: &Mode) -> BoxedStrategy<AlnRecord> {
+    let target = mode.target;
+    let ref_sel = || prop_oneof![1 => Just(None), 4 => any::<u16>().prop_map(|s| Some(s as u64))];
+    let pos = |m: &Mode| prop_oneof![1 => Just(None), 5 => position_strategy(m.max_pos, m.boundary_positions).prop_map(Some)];
+    let flags = prop_oneof![
+        3 => proptest::sample::select(vec![0u16, 4, 16, 77, 141, 99, 147, 83, 163, 256, 2048, 1024, 512, 0xfff, 0x800, 0x400, 1]),
+        3 => 0u16..0x1000,
+    ];
+    let mapq = prop_oneof![1 => Just(None), 2 => proptest::sample::select(vec![0u8, 1, 60, 254]).prop_map(Some), 3 => (0u8..=254).prop_map(Some)];
+    let tlen = prop_oneof![
+        3 => Just(0i32),
+        3 => -2000i32..2000,
+        2 => proptest::sample::select(vec![i32::MIN, i32::MIN + 1, -1, 1, i32::MAX, i32::MAX - 1, 1 << 29, -(1 << 29)]),
+        1 => any::<i32>(),
+    ];
+    let seq_choice = prop_oneof![1 => Just(SeqChoice::Missing), 5 => Just(SeqChoice::Fitting)];
+    let free_len = prop_oneof![4 => 0usize..=12, 1 => 12usize..=120];
+    let qual_present = prop_oneof![1 => Just(false), 3 => Just(true)];
+    (
+        (name_strategy(mode.names), flags, ref_sel(), pos(mode), mapq, cigar_strategy(mode)),
+        (ref_sel(), pos(mode), tlen, prop_oneof![3 => Just(false), 1 => Just(true)]),
+        (seq_choice, free_len, base_pool(target), qual_present, qual_pool(), any::<u32>()),
+        aux_fields(mode),
+    )
+        .prop_map(move |((name, flags, ref_id, pos, mapq, cigar), (mate_ref, mate_pos, tlen, mate_same), (seq_choice, free_len, bases, qual_present, quals, seed), aux)| {
+            let huge = matches!(cigar, CigarSpec::Huge { .. });
+            let mut r = AlnRecord { name, flags, ref_id, pos, mapq, cigar, mate_ref_id: if mate_same { ref_id } else { mate_ref }, mate_pos, tlen, aux, ..AlnRecord::default() };
+            let read_len = r.read_len() as usize;
+            let want = match seq_choice {
+                SeqChoice::Missing => 0,
+                SeqChoice::Fitting => {
+                    if read_len > 0 {
+                        read_len
+                    } else {
+                        free_len
+                    }
+                }
+            };
+            if huge {
+                if want > 0 {
+                    r.seq = SeqSpec::Auto { seed };
+                    if qual_present {
+                        r.qual = QualSpec::Auto { seed: seed ^ 0x5a5a };
+                    }
+                }
+            } else {
+                let seq: Vec<u8> = (0..want).map(|i| bases[i % bases.len()]).collect();
+                let mut q: Vec<u8> = if qual_present { (0..want).map(|i| quals[i % quals.len()]).collect() } else { Vec::new() };
+                if target != Target::Bam && q == [9] {
+                    // SAM renders this as `*` = missing; not representable in SAM text
+                    q = vec![10];
+                }
+                r.seq = SeqSpec::Bases(B(seq));
+                r.qual = QualSpec::Scores(q);
+            }
+            r
+        })
+        .boxed()
+}
+
+impl AlnRecord {
+    /// Map reference-id selectors (as produced by [`record_proto`]) onto `0..n_ref`; with an
+    /// empty dictionary both ids become missing.
+    pub fn resolve_refs(mut self, n_ref: usize) -> AlnRecord {
+        let f = |s: Option<u64>| match s {
+            Some(sel) if n_ref > 0 => Some(pick_idx(sel.min(65535) as u16, n_ref) as u64),
+            _ => None,
+        };
+        self.ref_id = f(self.ref_id);
+        self.mate_ref_id = f(self.mate_ref_id);
+        self
+    }
+}
+
+/// Records valid for `mode.target` against a header with `ctx.n_ref()` references.
+pub fn record(ctx: &RefCtx, mode: &Mode) -> BoxedStrategy<AlnRecord> {
+    let n = ctx.n_ref();
+    record_proto(mode).prop_map(move |r| r.resolve_refs(n)).boxed()
+}
+
+/// A header plus `0..=max_records` records consistent with it.
+pub fn document(hp: &HeaderParams, mode: &Mode, max_records: usize) -> BoxedStrategy<AlnDoc> {
+    (header_with(hp), proptest::collection::vec(record_proto(mode), 0..=max_records))
+        .prop_map(|(header, records)| {
+            let n = header.n_ref();
+            AlnDoc { header, records: records.into_iter().map(|r| r.resolve_refs(n)).collect() }
+        })
+        .boxed()
+}
+
+/// As [`document`] with at least `min_records` records.
+pub fn document_n(hp: &HeaderParams, mode: &Mode, min_records: usize, max_records: usize) -> BoxedStrategy<AlnDoc> {
+    (header_with(hp), proptest::collection::vec(record_proto(mode), min_records..=max_records.max(min_records)))
+        .prop_map(|(header, records)| {
+            let n = header.n_ref();
+            AlnDoc { header, records: records.into_iter().map(|r| r.resolve_refs(n)).collect() }
+        })
+        .boxed()
+}
+
+// ---------------------------------------------------------------------------------------------
+// validity predicates (what the generators promise; usable as assertions by consumers)
+// ---------------------------------------------------------------------------------------------
+
+/// `None` when `r` is inside the domain the writers for `target` must accept (given `n_ref`
+/// references); otherwise the first reason it is not.
+pub fn invalid_reason(r: &AlnRecord, n_ref: usize, target: Target) -> Option<String> {
+    let sam = target != Target::Bam;
+    if let Some(n) = &r.name {
+        if n.0.is_empty() || n.0.len() > 254 {
+            return Some(format!("name length {}", n.0.len()));
+        }
+        if n.0 == b"*" {
+            return Some("name `*`".into());
+        }
+        if !n.0.iter().all(|b| b.is_ascii_graphic() && *b != b'@') {
+            return Some("name byte outside [!-?A-~]".into());
+        }
+    }
+    if r.flags >= 0x1000 {
+        return Some("undefined flag bit".into());
+    }
+    for (what, id) in [("reference", r.ref_id), ("mate reference", r.mate_ref_id)] {
+        if let Some(i) = id {
+            if i as usize >= n_ref {
+                return Some(format!("{what} id {i} >= n_ref {n_ref}"));
+            }
+        }
+    }
+    for (what, p) in [("position", r.pos), ("mate position", r.mate_pos)] {
+        if let Some(p) = p {
+            if p == 0 || p > (1 << 31) - 1 {
+                return Some(format!("{what} {p}"));
+            }
+        }
+    }
+    if r.mapq == Some(255) {
+        return Some("mapq 255 as a value".into());
+    }
+    let ops = r.cigar_ops();
+    if ops.iter().any(|(k, l)| *k > 8 || *l > (1 << 28) - 1) {
+        return Some("CIGAR op".into());
+    }
+    let (bases, quals, read_len) = (r.bases(), r.quals(), r.read_len() as usize);
+    if !bases.is_empty() && read_len > 0 && bases.len() != read_len {
+        return Some(format!("sequence length {} vs CIGAR read length {read_len}", bases.len()));
+    }
+    if sam && !bases.iter().all(|b| b.is_ascii_alphabetic() || *b == b'=' || *b == b'.') {
+        return Some("base outside [A-Za-z=.]".into());
+    }
+    if !quals.is_empty() && quals.len() != bases.len() {
+        return Some("quality length".into());
+    }
+    if quals.iter().any(|q| *q > 93) {
+        return Some("quality > 93".into());
+    }
+    if sam && quals == [9] {
+        return Some("single quality 9 renders as `*`".into());
+    }
+    for (i, (t, v)) in r.aux.iter().enumerate() {
+        if !(t.0[0].is_ascii_alphabetic() && t.0[1].is_ascii_alphanumeric()) {
+            return Some(format!("aux tag {t:?}"));
+        }
+        if &t.0 == b"CG" {
+            return Some("aux tag CG is reserved".into());
+        }
+        if r.aux[..i].iter().any(|(u, _)| u == t) {
+            return Some(format!("duplicate aux tag {t:?}"));
+        }
+        match v {
+            AuxValue::Char(c) if !c.is_ascii_graphic() => return Some("aux char".into()),
+            AuxValue::Str(s) if !s.0.iter().all(|b| (0x20..=0x7e).contains(b)) => return Some("aux string".into()),
+            AuxValue::Hex(s) if s.0.len() % 2 != 0 || !s.0.iter().all(|b| b.is_ascii_digit() || (b'A'..=b'F').contains(b)) => return Some("aux hex".into()),
+            AuxValue::Int(n) if *n < i32::MIN as i64 || *n > u32::MAX as i64 => return Some("aux int range".into()),
+            _ => {}
+        }
+        if sam && v.has_nonfinite_float() {
+            return Some("non-finite float in SAM".into());
+        }
+    }
+    None
+}
+
+/// Header validity for both writers (SAMv1 §1.3 grammar as the noodles writer checks it).
+pub fn header_invalid_reason(h: &AlnHeader) -> Option<String> {
+    fn fields_ok(f: &Fields, reserved: &[&[u8; 2]]) -> Option<String> {
+        for (i, (t, v)) in f.iter().enumerate() {
+            if !(t.0[0].is_ascii_alphabetic() && t.0[1].is_ascii_alphanumeric()) {
+                return Some(format!("tag {t:?}"));
+            }
+            if reserved.iter().any(|r| **r == t.0) {
+                return Some(format!("tag {t:?} is reserved on this line"));
+            }
+            if f[..i].iter().any(|(u, _)| u == t) {
+                return Some(format!("duplicate tag {t:?}"));
+            }
+            if v.0.is_empty() || !v.0.iter().all(|b| (0x20..=0x7e).contains(b)) {
+                return Some(format!("value of {t:?}"));
+            }
+        }
+        None
+    }
+    if let Some(hd) = &h.hd {
+        if let Some(e) = fields_ok(&hd.other, &[b"VN"]) {
+            return Some(format!("@HD {e}"));
+        }
+    }
+    for (i, sq) in h.refs.iter().enumerate() {
+        let n = &sq.name.0;
+        let ok_char = |b: u8| b.is_ascii_graphic() && !b"\\,\"`'()[]{}<>".contains(&b);
+        if n.is_empty() || n[0] == b'*' || n[0] == b'=' || !n.iter().all(|b| ok_char(*b)) {
+            return Some(format!("@SQ name {:?}", sq.name));
+        }
+        if sq.len == 0 || sq.len > (1 << 31) - 1 {
+            return Some(format!("@SQ length {}", sq.len));
+        }
+        if h.refs[..i].iter().any(|o| o.name == sq.name) {
+            return Some("duplicate @SQ name".into());
+        }
+        if let Some(e) = fields_ok(&sq.other, &[b"SN", b"LN"]) {
+            return Some(format!("@SQ {e}"));
+        }
+    }
+    for (what, lines) in [("@RG", &h.read_groups), ("@PG", &h.programs)] {
+        for (i, l) in lines.iter().enumerate() {
+            if l.id.0.is_empty() || !l.id.0.iter().all(|b| (0x20..=0x7e).contains(b)) {
+                return Some(format!("{what} id"));
+            }
+            if lines[..i].iter().any(|o| o.id == l.id) {
+                return Some(format!("duplicate {what} id"));
+            }
+            if let Some(e) = fields_ok(&l.other, &[b"ID"]) {
+                return Some(format!("{what} {e}"));
+            }
+        }
+    }
+    if h.comments.iter().any(|c| c.0.contains(&b'\n') || c.0.contains(&b'\r')) {
+        return Some("comment with a line terminator".into());
+    }
+    None
+}
+
+// ---------------------------------------------------------------------------------------------
+// a record type that implements only the required methods of the alignment-record trait
+// ---------------------------------------------------------------------------------------------
+
+/// Wraps a `RecordBuf` and implements only the *required* methods of
+/// `sam::alignment::Record`, so that writers take their generic code paths (`CigarRef::Cigar`,
+/// `SequenceRef::Sequence`, `QualityScoresRef::QualityScores`, `DataRef::Data`) instead of the
+/// shortcuts `RecordBuf`, `sam::Record` and `bam::Record` provide. This is how any third-party
+/// record type reaches the writers.
+pub struct GenericRecord<'a>(pub &'a RecordBuf);
+
+impl sam::alignment::Record for GenericRecord<'_> {
+    fn name(&self) -> Option<&bstr::BStr> {
+        sam::alignment::Record::name(self.0)
+    }
+    fn flags(&self) -> std::io::Result<Flags> {
+        sam::alignment::Record::flags(self.0)
+    }
+    fn reference_sequence_id<'r, 'h: 'r>(&'r self, header: &'h sam::Header) -> Option<std::io::Result<usize>> {
+        sam::alignment::Record::reference_sequence_id(self.0, header)
+    }
+    fn alignment_start(&self) -> Option<std::io::Result<Position>> {
+        sam::alignment::Record::alignment_start(self.0)
+    }
+    fn mapping_quality(&self) -> Option<std::io::Result<MappingQuality>> {
+        sam::alignment::Record::mapping_quality(self.0)
+    }
+    fn cigar(&self) -> Box<dyn sam::alignment::record::Cigar + '_> {
+        sam::alignment::Record::cigar(self.0)
+    }
+    fn mate_reference_sequence_id<'r, 'h: 'r>(&'r self, header: &'h sam::Header) -> Option<std::io::Result<usize>> {
+        sam::alignment::Record::mate_reference_sequence_id(self.0, header)
+    }
+    fn mate_alignment_start(&self) -> Option<std::io::Result<Position>> {
+        sam::alignment::Record::mate_alignment_start(self.0)
+    }
+    fn template_length(&self) -> std::io::Result<i32> {
+        sam::alignment::Record::template_length(self.0)
+    }
+    fn sequence(&self) -> Box<dyn sam::alignment::record::Sequence + '_> {
+        sam::alignment::Record::sequence(self.0)
+    }
+    fn quality_scores(&self) -> Box<dyn sam::alignment::record::QualityScores + '_> {
+        sam::alignment::Record::quality_scores(self.0)
+    }
+    fn data(&self) -> Box<dyn sam::alignment::record::Data<'_> + '_> {
+        sam::alignment::Record::data(self.0)
+    }
+}
+
+// ---------------------------------------------------------------------------------------------
+// independent SAM text: header parser and record line renderer (SAMv1 §1.3–§1.5)
+// ---------------------------------------------------------------------------------------------
+
+impl AlnHeader {
+    /// Parse SAM header text with nothing but the grammar of SAMv1 §1.3: lines `@XX\tTAG:VALUE…`
+    /// (any field order), `@CO\t<text>`. Lines are grouped by kind, keeping their relative order.
+    pub fn from_text(text: &[u8]) -> Result<AlnHeader, String> {
+        let mut h = AlnHeader::default();
+        if text.is_empty() {
+            return Ok(h);
+        }
+        if *text.last().unwrap_or(&0) != b'\n' {
+            return Err("header text does not end with a line feed".into());
+        }
+        for (ln, line) in text[..text.len() - 1].split(|b| *b == b'\n').enumerate() {
+            let err = |m: &str| format!("line {}: {m}: {:?}", ln + 1, B(line.to_vec()));
+            if line.len() < 3 || line[0] != b'@' {
+                return Err(err("not a header line"));
+            }
+            let kind = &line[1..3];
+            if kind == b"CO" {
+                if line.get(3) != Some(&b'\t') {
+                    return Err(err("@CO without a tab"));
+                }
+                h.comments.push(B(line[4..].to_vec()));
+                continue;
+            }
+            let mut fields: Fields = Vec::new();
+            if line.len() > 3 {
+                if line[3] != b'\t' {
+                    return Err(err("no tab after the record type"));
+                }
+                for f in line[4..].split(|b| *b == b'\t') {
+                    if f.len() < 4 || f[2] != b':' {
+                        return Err(err("field is not TAG:VALUE with a non-empty value"));
+                    }
+                    fields.push((Tag([f[0], f[1]]), B(f[3..].to_vec())));
+                }
+            }
+            let mut take = |t: &[u8; 2]| -> Result<B, String> {
+                let idx: Vec<usize> = fields.iter().enumerate().filter(|(_, (u, _))| &u.0 == t).map(|(i, _)| i).collect();
+                if idx.len() != 1 {
+                    return Err(err(&format!("{} occurrences of {}", idx.len(), t.escape_ascii())));
+                }
+                Ok(fields.remove(idx[0]).1)
+            };
+            match kind {
+                b"HD" => {
+                    if ln != 0 {
+                        return Err(err("@HD is not the first line"));
+                    }
+                    let vn = take(b"VN")?;
+                    let s = String::from_utf8_lossy(&vn.0).to_string();
+                    let (a, b) = s.split_once('.').ok_or_else(|| err("VN is not major.minor"))?;
+                    let (major, minor) = (a.parse::<u32>().map_err(|_| err("VN major"))?, b.parse::<u32>().map_err(|_| err("VN minor"))?);
+                    h.hd = Some(HdLine { major, minor, other: fields });
+                }
+                b"SQ" => {
+                    let name = take(b"SN")?;
+                    let ln_ = take(b"LN")?;
+                    let len = String::from_utf8_lossy(&ln_.0).parse::<u64>().map_err(|_| err("LN"))?;
+                    h.refs.push(SqLine { name, len, other: fields });
+                }
+                b"RG" => {
+                    let id = take(b"ID")?;
+                    h.read_groups.push(IdLine { id, other: fields });
+                }
+                b"PG" => {
+                    let id = take(b"ID")?;
+                    h.programs.push(IdLine { id, other: fields });
+                }
+                _ => return Err(err("unknown record type")),
+            }
+        }
+        Ok(h)
+    }
+}
+
+/// One expected token of a SAM record line.
+#[derive(Clone, Debug, PartialEq)]
+pub enum SamTok {
+    /// the token must be exactly these bytes
+    Exact(Vec<u8>),
+    /// the token is `prefix` followed by comma-separated float literals (after a leading comma when
+    /// `array`), each matching the SAM float grammar and denoting exactly these bit patterns
+    Floats { prefix: Vec<u8>, bits: Vec<u32>, array: bool },
+}
+
+/// `[-+]?[0-9]*\.?[0-9]+([eE][-+]?[0-9]+)?` (SAMv1 §1.5)
+pub fn is_sam_float(t: &[u8]) -> bool {
+    let mut i = 0;
+    if i < t.len() && (t[i] == b'-' || t[i] == b'+') {
+        i += 1;
+    }
+    let d0 = i;
+    while i < t.len() && t[i].is_ascii_digit() {
+        i += 1;
+    }
+    let int_digits = i - d0;
+    let mut frac_digits = 0;
+    if i < t.len() && t[i] == b'.' {
+        i += 1;
+        let f0 = i;
+        while i < t.len() && t[i].is_ascii_digit() {
+            i += 1;
+        }
+        frac_digits = i - f0;
+        if frac_digits == 0 {
+            return false;
+        }
+    } else if int_digits == 0 {
+        return false;
+    }
+    let _ = frac_digits;
+    if i < t.len() && (t[i] == b'e' || t[i] == b'E') {
+        i += 1;
+        if i < t.len() && (t[i] == b'-' || t[i] == b'+') {
+            i += 1;
+        }
+        let e0 = i;
+        while i < t.len() && t[i].is_ascii_digit() {
+            i += 1;
+        }
+        if i == e0 {
+            return false;
+        }
+    }
+    i == t.len()
+}
+
+/// The tokens a SAM writer must emit for `r` (tab-separated; SAMv1 §1.4/§1.5): everything is
+/// determined byte for byte except the spelling of floating-point values.
+pub fn sam_tokens(h: &AlnHeader, r: &AlnRecord) -> Result<Vec<SamTok>, String> {
+    let ex = |s: String| SamTok::Exact(s.into_bytes());
+    let rname = |id: Option<u64>| -> Result<Vec<u8>, String> {
+        match id {
+            None => Ok(b"*".to_vec()),
+            Some(i) => h.refs.get(i as usize).map(|s| s.name.0.clone()).ok_or_else(|| format!("reference id {i} outside the dictionary")),
+        }
+    };
+    let mut v = vec![
+        SamTok::Exact(r.name.as_ref().map(|n| n.0.clone()).unwrap_or_else(|| b"*".to_vec())),
+        ex(r.flags.to_string()),
+        SamTok::Exact(rname(r.ref_id)?),
+        ex(r.pos.unwrap_or(0).to_string()),
+        ex(r.mapq.unwrap_or(255).to_string()),
+        ex(r.cigar_string()),
+        SamTok::Exact(if r.mate_ref_id.is_some() && r.mate_ref_id == r.ref_id { b"=".to_vec() } else { rname(r.mate_ref_id)? }),
+        ex(r.mate_pos.unwrap_or(0).to_string()),
+        ex(r.tlen.to_string()),
+    ];
+    let (bases, quals) = (r.bases(), r.quals());
+    v.push(SamTok::Exact(if bases.is_empty() { b"*".to_vec() } else { bases }));
+    v.push(SamTok::Exact(if quals.is_empty() { b"*".to_vec() } else { quals.iter().map(|q| q + 33).collect() }));
+    for (t, val) in &r.aux {
+        let mut p = t.0.to_vec();
+        p.push(b':');
+        let int_arr = |p: &mut Vec<u8>, c: u8, xs: Vec<String>| {
+            p.extend_from_slice(b"B:");
+            p.push(c);
+            for x in xs {
+                p.push(b',');
+                p.extend_from_slice(x.as_bytes());
+            }
+        };
+        match val {
+            AuxValue::Char(c) => {
+                p.extend_from_slice(b"A:");
+                p.push(*c);
+            }
+            AuxValue::F32(b) => {
+                p.extend_from_slice(b"f:");
+                v.push(SamTok::Floats { prefix: p, bits: vec![*b], array: false });
+                continue;
+            }
+            AuxValue::ArrF32(bs) => {
+                p.extend_from_slice(b"B:f");
+                v.push(SamTok::Floats { prefix: p, bits: bs.clone(), array: true });
+                continue;
+            }
+            AuxValue::Str(s) => {
+                p.extend_from_slice(b"Z:");
+                p.extend_from_slice(&s.0);
+            }
+            AuxValue::Hex(s) => {
+                p.extend_from_slice(b"H:");
+                p.extend_from_slice(&s.0);
+            }
+            AuxValue::ArrI8(x) => int_arr(&mut p, b'c', x.iter().map(|n| n.to_string()).collect()),
+            AuxValue::ArrU8(x) => int_arr(&mut p, b'C', x.iter().map(|n| n.to_string()).collect()),
+            AuxValue::ArrI16(x) => int_arr(&mut p, b's', x.iter().map(|n| n.to_string()).collect()),
+            AuxValue::ArrU16(x) => int_arr(&mut p, b'S', x.iter().map(|n| n.to_string()).collect()),
+            AuxValue::ArrI32(x) => int_arr(&mut p, b'i', x.iter().map(|n| n.to_string()).collect()),
+            AuxValue::ArrU32(x) => int_arr(&mut p, b'I', x.iter().map(|n| n.to_string()).collect()),
+            other => {
+                let n = other.as_int().ok_or("unexpected aux value")?;
+                p.extend_from_slice(format!("i:{n}").as_bytes());
+            }
+        }
+        v.push(SamTok::Exact(p));
+    }
+    Ok(v)
+}
+
+/// Compare one SAM record line (without the line feed) with the expected tokens. `Err((class,
+/// message))`: class is `"columns"`, `"field<N>"` (1-based mandatory column), `"aux"` or `"float"`.
+pub fn check_sam_line(line: &[u8], want: &[SamTok]) -> Result<(), (String, String)> {
+    let toks: Vec<&[u8]> = line.split(|b| *b == b'\t').collect();
+    if toks.len() != want.len() {
+        return Err(("columns".into(), format!("{} tab-separated columns, expected {}: {:?}", toks.len(), want.len(), B(line.to_vec()))));
+    }
+    for (i, (t, w)) in toks.iter().zip(want).enumerate() {
+        let class = if i < 11 { format!("field{}", i + 1) } else { "aux".to_string() };
+        match w {
+            SamTok::Exact(e) => {
+                if *t != &e[..] {
+                    return Err((class, format!("column {}: {:?}, expected {:?}", i + 1, B(t.to_vec()), B(e.clone()))));
+                }
+            }
+            SamTok::Floats { prefix, bits, array } => {
+                let Some(rest) = t.strip_prefix(&prefix[..]) else {
+                    return Err((class, format!("column {}: {:?} does not start with {:?}", i + 1, B(t.to_vec()), B(prefix.clone()))));
+                };
+                let lits: Vec<&[u8]> = if *array {
+                    if rest.is_empty() {
+                        vec![]
+                    } else if rest[0] != b',' {
+                        return Err((class, format!("column {}: {:?}: no comma after the subtype", i + 1, B(t.to_vec()))));
+                    } else {
+                        rest[1..].split(|b| *b == b',').collect()
+                    }
+                } else {
+                    vec![rest]
+                };
+                if lits.len() != bits.len() {
+                    return Err((class, format!("column {}: {} float literals, expected {}", i + 1, lits.len(), bits.len())));
+                }
+                for (l, b) in lits.iter().zip(bits) {
+                    let s = String::from_utf8_lossy(l);
+                    if !is_sam_float(l) {
+                        return Err(("float".into(), format!("column {}: {s:?} is not a SAM float literal (value bits 0x{b:08x} = {:e})", i + 1, f32::from_bits(*b))));
+                    }
+                    match s.parse::<f32>() {
+                        Ok(x) if x.to_bits() == *b => {}
+                        other => return Err(("float".into(), format!("column {}: literal {s:?} denotes {other:?}, the value is {:e} (bits 0x{b:08x})", i + 1, f32::from_bits(*b)))),
+                    }
+                }
+            }
+        }
+    }
+    Ok(())
+}
